@@ -23,7 +23,7 @@ EXPLANATION = ('Every explicit two-operand subscript string over {i,j,k} (<=3 bl
                'when it raises nothing is transposed. Shared block array and one block array per leaf are both covered.')
 FUNCTIONS = ['DenseBlockDiagonalOperator.__init__/mv/transpose', 'DenseBlockDiagonalOperator._parse_subscripts', 'DenseBlockDiagonalOperator._get_transposed_subscripts']
 BOUNDS = {'quick': 'all strings of the family that the transposer accepts (about 490) + seeded 250 others; dims i=2, j=3, k=2, ellipsis = one axis of size 2; '
-                   'pytree variants for 12 strings',
+                   'pytree variants for 12 strings (shared block on a pytree, one block per leaf, one block per leaf with leaves of different shapes)',
           'thorough': 'all ~19 000 einsum-valid strings of the family; the transposable ones also with dims i=3, j=2, k=3'}
 STUBS = []
 ASSUMPTIONS = ['real arithmetic', 'numpy.einsum on exact symbol arrays is the reference semantics of an einsum string']
@@ -107,6 +107,7 @@ def cases(tier, seed):
     for s in sample[: (12 if tier == 'quick' else 80)]:
         out.append(('s', s, 'perleaf'))
         out.append(('s', s, 'sharedtree'))
+        out.append(('s', s, 'perleaf-mixed'))   # one block array per leaf, leaves (and blocks) of DIFFERENT shapes
     if tier == 'thorough':
         out += [('s', s, 'dims-b') for s in tr]
     out.append(('parse',))
@@ -132,6 +133,8 @@ def _structs(s, layout):
         return bst, xst
     if layout == 'perleaf':
         return {'a': bst, 'b': bst}, {'a': xst, 'b': xst}
+    if layout == 'perleaf-mixed':
+        return {'a': bst, 'b': S(*_shape(l, 'b'))}, {'a': xst, 'b': S(*_shape(r, 'b'))}
     return bst, {'a': xst, 'b': [xst]}
 
 
@@ -156,7 +159,10 @@ def run_case(key, twin=False):
     except Exception as ex:  # noqa: BLE001
         return violation(f'DenseBlockDiagonalOperator({s!r}) cannot be built/evaluated although einsum accepts the string: {type(ex).__name__}: {str(ex)[:100]}',
                          signature=f'c14-ctor:{s}', kind='ctor')
-    want_y = jax.tree.map(lambda t: S(*oshape), xst)
+    if layout == 'perleaf-mixed':
+        want_y = jax.tree.map(lambda bt, xt: S(*np.einsum(s, np.zeros(bt.shape), np.zeros(xt.shape)).shape), bst, xst)
+    else:
+        want_y = jax.tree.map(lambda t: S(*oshape), xst)
     if not structs_equal(yst, want_y):
         return violation(f'out_structure {describe_struct(yst)} != einsum shape {oshape} for {s!r}', signature=f'c14-struct:{s}', kind='struct')
     ctx = E.Ctx()
@@ -166,7 +172,7 @@ def run_case(key, twin=False):
 
     def ein(bl, xl):
         return E.fix(np.einsum(s, bl, xl))
-    if layout == 'perleaf':
+    if layout in ('perleaf', 'perleaf-mixed'):
         want = jax.tree.map(ein, b, x, is_leaf=E.is_sym)
     else:
         want = jax.tree.map(lambda xl: ein(b, xl), x, is_leaf=E.is_sym)
@@ -246,7 +252,7 @@ def replay(key, model, info):
     op = D(b, xst, s)
     y = model_tree(model, 'y', op.out_structure())
     if kind == 'mv':
-        if layout == 'perleaf':
+        if layout in ('perleaf', 'perleaf-mixed'):
             want = jax.tree.map(lambda bl, xl: np.einsum(s, np.asarray(bl), np.asarray(xl)), b, x)
         else:
             want = jax.tree.map(lambda xl: np.einsum(s, np.asarray(b), np.asarray(xl)), x)
